@@ -563,12 +563,18 @@ func TestPointKeyAfterBuiltinWrite(t *testing.T) {
 		func() *gen.Node { return gen.NCall("set_tag", id("k"), gen.NStr("tv")) },
 	}
 	reads := []func() []*gen.Node{
-		func() []*gen.Node { return []*gen.Node{gen.NSet("x", id("k")), gen.NCall("probe", gen.NStr("x"), id("x"))} },
+		func() []*gen.Node {
+			return []*gen.Node{gen.NSet("x", id("k")), gen.NCall("probe", gen.NStr("x"), id("x"))}
+		},
 		func() []*gen.Node {
 			return []*gen.Node{gen.NIf([]*gen.Node{gen.NBin("==", id("k"), gen.NInt(2))}, [][]*gen.Node{{gen.NSet("hit", gen.NBool(true))}}, []*gen.Node{gen.NSet("hit", gen.NBool(false))}, true), gen.NCall("probe", gen.NStr("hit"), id("hit"))}
 		},
-		func() []*gen.Node { return []*gen.Node{gen.NSet("x", gen.NList(id("k"), id("k2"))), gen.NCall("probe", gen.NStr("pair"), id("x"))} },
-		func() []*gen.Node { return []*gen.Node{gen.NAssign("+=", []*gen.Node{id("acc")}, []*gen.Node{id("k")}), gen.NCall("probe", gen.NStr("acc"), id("acc"))} },
+		func() []*gen.Node {
+			return []*gen.Node{gen.NSet("x", gen.NList(id("k"), id("k2"))), gen.NCall("probe", gen.NStr("pair"), id("x"))}
+		},
+		func() []*gen.Node {
+			return []*gen.Node{gen.NAssign("+=", []*gen.Node{id("acc")}, []*gen.Node{id("k")}), gen.NCall("probe", gen.NStr("acc"), id("acc"))}
+		},
 	}
 	n := 0
 	for wi, w := range writes {
